@@ -89,6 +89,19 @@ def odd_name(k: int) -> str:
     return ODD_NAMES[k % len(ODD_NAMES)]
 
 
+def spell(path, base, k: int) -> str:
+    """One file or directory, the way a command line may name it: absolute, relative to the working directory `base`, relative
+    with a leading './', and - for directories - with a trailing separator.  All spellings name the same thing."""
+    import os
+    path, base = str(path), str(base)
+    rel = os.path.relpath(path, base)
+    forms = [path, rel, "./" + rel, path]
+    s_ = forms[k % 4]
+    if os.path.isdir(path) and k % 3 == 1:
+        s_ += "/"
+    return s_
+
+
 def num(v: int) -> str:
     """A number as the command line / a configuration file may spell it: the notation (0x.. hex, decimal, 0o.. octal, 0b.. binary)
     is free wherever the tool reads integers with base 0, so it varies with the value."""
